@@ -563,7 +563,9 @@ fn with_text(v: Verdict, text: &str) -> Verdict {
 }
 
 fn new_session() -> Session {
-    let mut s = Session::new(&[]);
+    // library(dcgs) makes '|' an infix operator (priority 1100): the reader's handling of a bar in
+    // argument position (`foo(|).`, `foo(a, |).`) is only reachable with such an operator table
+    let mut s = Session::new(&["dcgs"]);
     assert!(s.consult(C17_PL, "c17"), "c17.pl failed to load");
     s
 }
